@@ -93,16 +93,80 @@ Arguments m_can_advance {E C}. Arguments m_transition {E C}.
 Definition cur_class {E} (st : state_table E) (ng : N) (b : zbuf) : N :=
   match rest b with x :: _ => glyph_class st ng (gid x) | [] => 0 (* END_OF_TEXT *) end.
 
+(* ---- per-range feature flags (hb_aat_map_t chain_flags with more than one range): when user
+   features are restricted to cluster ranges, `drive` looks up the range of the current glyph's cluster
+   and skips the glyph (state := start of text) when the subtable's feature flags miss that range *)
+Definition rflags := list (N * N * N).            (* flags, cluster_first, cluster_last *)
+Record rgate := mkGate { g_ranges : rflags; g_sub : N (* subtable feature flags *) }.
+
+(* `while cluster < range_flags[range].cluster_first { range -= 1 }` *)
+Fixpoint seek_down (rs : rflags) (fuel r : nat) (cl : N) : result nat :=
+  match nth_error rs r with
+  | None => Error Oob
+  | Some (_, first, _) =>
+    if cl <? first then
+      match r, fuel with
+      | O, _ => Error Overflow
+      | S r', S f => seek_down rs f r' cl
+      | _, O => Error OutOfFuel
+      end
+    else Ok r
+  end.
+(* `while cluster > range_flags[range].cluster_last { range += 1 }` *)
+Fixpoint seek_up (rs : rflags) (fuel r : nat) (cl : N) : result nat :=
+  match nth_error rs r with
+  | None => Error Oob
+  | Some (_, _, last) =>
+    if last <? cl then
+      match fuel with
+      | S f => seek_up rs f (S r) cl
+      | O => Error OutOfFuel
+      end
+    else Ok r
+  end.
+Definition seek_range (rs : rflags) (r : nat) (cl : N) : result nat :=
+  do r1 <- seek_down rs (length rs) r cl; seek_up rs (length rs) r1 cl.
+
+(* the range used for this iteration (unchanged at end of text) and whether the subtable acts there *)
+Definition gate_range (g : rgate) (lr : nat) (b : zbuf) : result nat :=
+  match rest b with x :: _ => seek_range (g_ranges g) lr (cluster x) | [] => Ok lr end.
+Definition gate_open (g : rgate) (r : nat) : bool :=
+  match nth_error (g_ranges g) r with
+  | Some (fl, _, _) => negb (N.land fl (g_sub g) =? 0)
+  | None => false
+  end.
+
 (* the loop of `drive`; None = out of fuel.  `rest b = []` is `idx >= len`.  A failed `next_glyph`
    (length budget) ends the model's run with AMB_ALLOC: the real loop does one more transition on an
-   unspecified buffer. *)
+   unspecified buffer.  `gate = None`: a single range, already tested by `apply`. *)
 Definition dres (C : Type) := result (C * zbuf * Z * N).
 
 Fixpoint drive_loop {E C} (M : machine E C) (st : state_table E) (ng : N)
-         (fuel : nat) (state : N) (c : C) (b : zbuf) (ops : Z) (amb : N) : option (dres C) :=
+         (fuel : nat) (state : N) (c : C) (b : zbuf) (ops : Z) (amb : N)
+         (gate : option rgate) (lr : nat) : option (dres C) :=
   match fuel with
   | O => None
   | S fuel =>
+    match (match gate with
+           | None => Ok (lr, true)
+           | Some g => do r <- gate_range g lr b; Ok (r, gate_open g r)
+           end) with
+    | Error er => Some (Error er)
+    | Ok (lr1, false) =>
+      (* the subtable is off in this range: skip the glyph, back to start of text *)
+      match rest b with
+      | [] => Some (Ok (c, b, ops, amb))
+      | _ :: _ =>
+        if negb (ok b) then Some (Ok (c, b, ops, N.lor amb AMB_ALLOC))
+        else
+          match next_glyph b with
+          | Error er => Some (Error er)
+          | Ok b2 =>
+            if ok b2 then drive_loop M st ng fuel 0 c b2 ops amb gate lr1
+            else Some (Ok (c, b2, ops, N.lor amb AMB_ALLOC))
+          end
+      end
+    | Ok (lr1, true) =>
     match st_entry st state (cur_class st ng b) with
     | None => Some (Ok (c, b, ops, N.lor amb AMB_TABLE))
     | Some e =>
@@ -118,18 +182,19 @@ Fixpoint drive_loop {E C} (M : machine E C) (st : state_table E) (ng : N)
             match next_glyph b1 with
             | Error er => Some (Error er)
             | Ok b2 =>
-              if ok b2 then drive_loop M st ng fuel (m_new_state M e) c1 b2 ops1 amb1
+              if ok b2 then drive_loop M st ng fuel (m_new_state M e) c1 b2 ops1 amb1 gate lr1
               else Some (Ok (c1, b2, ops1, N.lor amb1 AMB_ALLOC))
             end
           else
             match (if (ops1 <=? 0)%Z then next_glyph b1 else Ok b1) with
             | Error er => Some (Error er)
             | Ok b2 =>
-              if ok b2 then drive_loop M st ng fuel (m_new_state M e) c1 b2 (ops1 - 1)%Z amb1
+              if ok b2 then drive_loop M st ng fuel (m_new_state M e) c1 b2 (ops1 - 1)%Z amb1 gate lr1
               else Some (Ok (c1, b2, (ops1 - 1)%Z, N.lor amb1 AMB_ALLOC))
             end
         end
       end
+    end
     end
   end.
 
@@ -141,10 +206,10 @@ Definition drive_fuel (b : zbuf) (ops : Z) : nat := S (drive_potential b ops).
 Definition drive_start (in_place : bool) (b : zbuf) : zbuf :=
   if in_place then with_pr b [] (arr b) O else clear_output b.
 
-Definition drive {E C} (M : machine E C) (st : state_table E) (ng : N) (c0 : C) (b : zbuf) (ops : Z)
+Definition drive {E C} (M : machine E C) (st : state_table E) (ng : N) (gate : option rgate) (c0 : C) (b : zbuf) (ops : Z)
   : result (zbuf * Z * N) :=
   let b0 := drive_start (m_in_place M) b in
-  match drive_loop M st ng (drive_fuel b0 ops) 0 c0 b0 ops 0 with
+  match drive_loop M st ng (drive_fuel b0 ops) 0 c0 b0 ops 0 gate O with
   | None => Error OutOfFuel
   | Some (Error e) => Error e
   | Some (Ok (_, b1, ops1, amb)) =>
@@ -477,11 +542,28 @@ Definition kind_code (k : morx_kind) : N :=
   | MNonContextual _ => 4 | MInsertion _ _ => 5
   end.
 
-Definition apply_subtable (k : morx_kind) (ng : N) (b : zbuf) (ops : Z) : result (zbuf * Z * N) :=
+(* NonContextual with several ranges: every glyph is gated by the range of ITS cluster
+   (`ac.buffer.info[i].cluster`; fixed in b49677d — before, the cluster at buffer.idx gated all) *)
+Fixpoint nonctx_gated_loop (l : aat_lookup) (ng : N) (g : rgate) (lr : nat) (a : list info) : result (list info) :=
+  match a with
+  | [] => Ok []
+  | x :: t =>
+    do r <- seek_range (g_ranges g) lr (cluster x);
+    do t' <- nonctx_gated_loop l ng g r t;
+    Ok ((if gate_open g r then nonctx_glyph l ng x else x) :: t')
+  end.
+Definition apply_noncontextual_gated (l : aat_lookup) (ng : N) (g : rgate) (b : zbuf) : result zbuf :=
+  do a <- nonctx_gated_loop l ng g O (arr b); Ok (of_arr b a).
+
+Definition apply_subtable (k : morx_kind) (ng : N) (gate : option rgate) (b : zbuf) (ops : Z) : result (zbuf * Z * N) :=
   match k with
-  | MRearrangement t => drive rearr_machine t ng (O, O) b ops
-  | MContextual t subs => drive (ctx_machine subs ng) t ng (false, O) b ops
-  | MLigature t actions comps ligs => drive (lig_machine actions comps ligs) t ng lig_ctx0 b ops
-  | MNonContextual l => Ok (apply_noncontextual l ng b, ops, 0)
-  | MInsertion t glyphs => drive (ins_machine glyphs) t ng O b ops
+  | MRearrangement t => drive rearr_machine t ng gate (O, O) b ops
+  | MContextual t subs => drive (ctx_machine subs ng) t ng gate (false, O) b ops
+  | MLigature t actions comps ligs => drive (lig_machine actions comps ligs) t ng gate lig_ctx0 b ops
+  | MNonContextual l =>
+    match gate with
+    | None => Ok (apply_noncontextual l ng b, ops, 0)
+    | Some g => do b1 <- apply_noncontextual_gated l ng g b; Ok (b1, ops, 0)
+    end
+  | MInsertion t glyphs => drive (ins_machine glyphs) t ng gate O b ops
   end.
